@@ -39,6 +39,12 @@ def _stats(cases, recs):
     kinds = {"ok": 0, "err": 0, "late": 0, "never": 0}
     cl = dict(both_contribute=0, ref_only=0, peer_only=0, peer_within_cutoff=0, peer_at_cutoff=0,
               ref_clamped=0, peer_clamped=0, clamped_negative=0, rounds_with_stale_ref_slots=0, rounds=0)
+    # the local clock during the Sleep call before a round (generated behaviours:
+    # slp/stp in half intervals; on time = 2/0)
+    ck = dict(rounds_after_a_sleep=0, after_on_time_sleep=0, after_late_sleep=0, after_stepped_reading=0,
+              after_reading_jumped_2_intervals_or_more=0, after_reading_went_backwards=0,
+              after_reading_stood_still_or_moved_less=0, clamped_after_forward_jump=0,
+              clamped_after_backward_jump=0, clamped_after_late_sleep=0)
     for c in cases:
         cf = c["cfg"]
         for i, m in enumerate(c["rounds"]):
@@ -55,17 +61,35 @@ def _stats(cases, recs):
             cl["ref_clamped"] += m["rc"] != m["ro"]
             cl["peer_clamped"] += m["pc"] != m["po"]
             cl["clamped_negative"] += (m["rc"] != m["ro"] and m["ro"] < 0) or (m["pc"] != m["po"] and m["po"] < 0)
+            if i > 0:
+                slp, stp = m["slp"], m["stp"]
+                d = slp + stp
+                clamped = m["rc"] != m["ro"] or m["pc"] != m["po"]
+                ck["rounds_after_a_sleep"] += 1
+                ck["after_on_time_sleep"] += slp == 2 and stp == 0
+                ck["after_late_sleep"] += slp > 2
+                ck["after_stepped_reading"] += stp != 0
+                ck["after_reading_jumped_2_intervals_or_more"] += d >= 4
+                ck["after_reading_went_backwards"] += d < 0
+                ck["after_reading_stood_still_or_moved_less"] += 0 <= d < 2
+                ck["clamped_after_forward_jump"] += clamped and d >= 4
+                ck["clamped_after_backward_jump"] += clamped and d < 0
+                ck["clamped_after_late_sleep"] += clamped and slp >= 4
             nok = sum(o["k"] == "ok" for o in m["ref"])
             if i > 0 and nok < len(m["ref"]) and any(v != 0 for v in c["rounds"][i - 1]["rs"][nok:]):
                 cl["rounds_with_stale_ref_slots"] += 1
     s.update({k: int(v) for k, v in cl.items()})
     s["outcomes"] = kinds
+    s["local_clock"] = {k: int(v) for k, v in ck.items()}
+    # driver side (not a guard): round records whose fake clock reported the jump
+    s["local_clock"]["round_records_after_a_jump_of_the_reading"] = sum(
+        r["rnd"] > 1 and (r["el"] >= 4 or r["el"] < 0) for r in rd)
     return s
 
 
 def _corrupt(ctx, recs):
-    """Negative control of the binding (VERIF_C01_CORRUPT=corr|ndo|refused|expected):
-    corrupt one recorded field and expect the monitor (strict for `expected`) to object."""
+    """Negative control of the binding (VERIF_C01_CORRUPT=corr|ndo|refused|expected|clock):
+    corrupt one recorded field and expect the monitor (strict for `expected`, `clock`) to object."""
     mode = os.environ.get("VERIF_C01_CORRUPT")
     if not mode:
         return
@@ -84,6 +108,9 @@ def _corrupt(ctx, recs):
             return
         if mode == "expected" and r["hasexp"]:
             r["ero"] += 4
+            return
+        if mode == "clock" and r["hasexp"] and r["rnd"] > 1:
+            r["el"] += 1
             return
 
 
@@ -140,8 +167,13 @@ def run(ctx):
             bad = part[l - 1] if l else None
             cl = _class(bad)
             case = cases[bad["case"]] if bad else None
+            after = ""
+            if bad and bad["k"] == "round" and bad["rnd"] > 1:
+                after = "; the Sleep call before this round took %s and moved the reading by %s half intervals" \
+                        % (bad["slept"], bad["el"])
             ctx.violation("C01 %s %s" % (inv, cl),
-                          "real sync.Run violates %s (%s): %s" % (inv, cl, bad), dict(record=bad, behaviour=case))
+                          "real sync.Run violates %s (%s%s): %s" % (inv, cl, after, bad),
+                          dict(record=bad, behaviour=case))
             continue
         nval += len(part)
         ok, l, inv, tout = ctx.validate("SyncRoundTrace", STRICT, pp)
@@ -156,6 +188,22 @@ def run(ctx):
               "int64_extreme_runs", "rounds_with_stale_ref_slots"):
         if st[k] == 0 and not ctx.violations:
             raise vlib.Inconclusive("vacuous run: no recorded round of class %s" % k)
+    lc = st["local_clock"]
+    for k in ("after_on_time_sleep", "after_late_sleep", "after_stepped_reading",
+              "after_reading_jumped_2_intervals_or_more", "after_reading_went_backwards",
+              "after_reading_stood_still_or_moved_less", "clamped_after_forward_jump",
+              "clamped_after_backward_jump", "clamped_after_late_sleep"):
+        if lc[k] == 0 and not ctx.violations:
+            raise vlib.Inconclusive("vacuous run: no generated round of local-clock class %s" % k)
+    ctx.notes.append(
+        "local clock as environment (SyncRound.tla Wake: clk.Sleep returns late, clk.Now() stepped forwards/backwards, "
+        "Epoch advances; 13 choices per Sleep call, exhaustive in the model, replayed by the driver's fake clock): "
+        "of %d generated rounds that follow a Sleep call, %d follow a reading jump of >= 2 intervals (%d of them with a "
+        "clamped contribution), %d a reading that went backwards (%d clamped), %d a late return (>= 1 interval late and "
+        "clamped: %d), %d a stepped reading (new epoch), %d an on-time Sleep; the monitor clauses are the same for all"
+        % (lc["rounds_after_a_sleep"], lc["after_reading_jumped_2_intervals_or_more"], lc["clamped_after_forward_jump"],
+           lc["after_reading_went_backwards"], lc["clamped_after_backward_jump"], lc["after_late_sleep"],
+           lc["clamped_after_late_sleep"], lc["after_stepped_reading"], lc["after_on_time_sleep"]))
     obs = []
     if os.path.exists(trace + ".obs"):
         obs = vlib.read_ndjson(trace + ".obs")
@@ -167,7 +215,8 @@ def run(ctx):
         evaluations=len(recs), distinct_nontrivial=distinct,
         rule="start-up: every configuration of the 960-point grid (TLC-enumerated) x 2 time units; rounds: "
              "TLC-simulated behaviours of SyncRound (seeded; 3 rounds; up to 3 reference clocks and 2 peers; "
-             "ok/err/late/never outcomes; 25 offset values incl. the word extremes)"
+             "ok/err/late/never outcomes; 25 offset values incl. the word extremes; each clk.Sleep call returns "
+             "on time or 1/2..99 intervals late and/or with the reading clk.Now() stepped by -100..+99 intervals)"
              + ("" if q else " + one behaviour per reachable state of the exhaustive model")
              + " x value embeddings a*v (a in 1, 4, 1000, 2^20, 2^56, 2^56 with MaxInt64); distinct = distinct "
                "(configuration, reported reference offset, reported peer offset, embedding) with a non-zero offset "
@@ -183,4 +232,6 @@ def run(ctx):
         "impact factors are multiples of 1/4 and caps are chosen so that the float64 products in Run are exact",
         "SyncTimeout > 0 in replayed admissible configurations (with 0 the deadline races with the answers)",
         "small scope: <= 3 reference clocks, <= 2 peers, 2 rounds exhaustively; 3 rounds sampled",
+        "the local clock moves only inside clk.Sleep (late return and/or step of the reading, new epoch per step); "
+        "jumps while a round is measuring, and a Sleep that returns early, are not generated",
         "NaN/Inf impact factors are outside the statement's classification: observed, reported, not judged"]
